@@ -7,6 +7,8 @@ func init() {
 		Fixtures:    []string{"s", "n", "u"},
 		Run:         runC18,
 		SelfTest: []Mutation{
+			{Name: "UV lookup trusts the first child whose box contains the point", File: "model3d/parameterization.go",
+				Old: "\t\tif tri, bary := ch.findContains(c); tri != nil {\n\t\t\treturn tri, bary\n\t\t}", New: "\t\tif ch.bounds.Contains(c) {\n\t\t\treturn ch.findContains(c)\n\t\t}", Rule: "SEARCHALL", Expect: "findContains"},
 			{Name: "p-norm of the raw coordinates", File: "model3d/parameterization.go",
 				Old: "\t\tabs := v.Abs()\n", New: "\t\tabs := v\n", Rule: "POWABS", Expect: "PNormBoundary"},
 			{Name: "transposed Floater system", File: "model3d/parameterization.go",
@@ -41,6 +43,9 @@ func runC18(c *Ctx) {
 	c.floor("SPLIT2", 0)
 	c.floor("AXIS", 4)
 	// the p-norm boundary raises absolute coordinates to the power p
+	// the UV lookup tries every child whose box contains the point
+	c.runSearchAll("SEARCHALL", append(c.libPkgs()[:1:1], c.fixturePkg("s")), ff)
+	c.floor("SEARCHALL", 0)
 	c.runPowAbs("POWABS", append(c.libPkgs()[:1:1], c.fixturePkg("n")), nil)
 	c.floor("POWABS", 0)
 }
